@@ -4,7 +4,8 @@ run the property's quick check against the worktree (VERIF_REPO) -> record under
 import glob, json, os, re, shutil, subprocess, sys, tempfile
 only = sys.argv[1:]
 SEED_DIR = os.environ.get("SEED_DIR", "/tmp/seed")
-RENAME = ({"A": "C", "B": "D", "C": "E"} if SEED_DIR.endswith("seed2") else {"A": "E", "B": "F", "C": "G"} if SEED_DIR.endswith(("seed3", "seed4")) else {})
+RENAME = ({"A": "C", "B": "D", "C": "E"} if SEED_DIR.endswith("seed2") else {"A": "E", "B": "F", "C": "G"} if SEED_DIR.endswith(("seed3", "seed4"))
+          else {"A": "G", "B": "H"} if SEED_DIR.endswith("seed6") else {})
 # round 3: letters continue after those the property already has
 RENAME3 = {"C14": {"A": "C", "B": "D"}, "C17": {"A": "C", "B": "D"}, "C18": {"A": "C", "B": "D"}, "C20": {"A": "D", "B": "E"}}
 RENAME5 = {"C07": {"A": "G", "B": "H"}, "C09": {"A": "G", "B": "H"}, "C13": {"A": "G", "B": "H"}, "C14": {"A": "E", "B": "F"}, "C17": {"A": "E", "B": "F"},
